@@ -110,3 +110,25 @@ Definition sexports_eq (k : kind) (a b : Z) : list bool :=
   | KU => [e; e; e; e; bits; spec_count_ones a =? spec_count_ones b; tz]
   | KI => [e; e; e; e; e; e; bits; tz]
   end.
+
+(** every export as a function of the integer alone *)
+Definition tz_list (x : Z) : list Z := match spec_trailing_zeros x with Some k => [k] | None => [] end.
+Definition sexport (k : kind) (e : export) (v : Z) : outcome (list Z) :=
+  match k, e with
+  | KU, EU32 => Ret (spec_to_u32_digits v)
+  | KU, EU64 => Ret (spec_to_u64_digits v)
+  | KU, EBytesLe => Ret (spec_to_bytes_le v)
+  | KU, EBytesBe => Ret (spec_to_bytes_be v)
+  | KU, EBits => Ret [spec_bits v]
+  | KU, ECountOnes => Ret [spec_count_ones v]
+  | KU, ETrailingZeros => Ret (tz_list v)
+  | KI, EU32 => Ret (sign_z (z_sign v) :: spec_to_u32_digits (Z.abs v))
+  | KI, EU64 => Ret (sign_z (z_sign v) :: spec_to_u64_digits (Z.abs v))
+  | KI, EBytesLe => Ret (sign_z (z_sign v) :: spec_to_bytes_le (Z.abs v))
+  | KI, EBytesBe => Ret (sign_z (z_sign v) :: spec_to_bytes_be (Z.abs v))
+  | KI, ESignedLe => Ret (spec_to_signed_bytes_le v)
+  | KI, ESignedBe => Ret (spec_to_signed_bytes_be v)
+  | KI, EBits => Ret [spec_bits v]
+  | KI, ETrailingZeros => Ret (tz_list v)
+  | _, _ => Panic (Internal 1400)
+  end.
